@@ -211,6 +211,36 @@ class C17(Prop):
             ops += ["write id=%d init=aug comment=1 nt=rna" % tid, "readwrite id=%d init=table comment=0 nt=rna" % tid]
             ops += ["readwrite id=%d init=%s comment=%d" % (tid, init, cm) for init in ("table", "any", "aug") for cm in (0, 1)]
             out.append({"name": "table%d" % tid, "ops": ops, "sticky": 0})
+        # damaged NCBI texts, one defect each (Read must answer eslEFORMAT; monitored by py_read)
+        aas, starts = PINNED[1]
+        b1 = "".join("TCAG"[p // 16] for p in range(64)); b2 = "".join("TCAG"[(p % 16) // 4] for p in range(64))
+        b3 = "".join("TCAG"[p % 4] for p in range(64))
+        def ncbi(rows):
+            return ("\n".join("  %-6s = %s" % (k, v) for k, v in rows) + "\n").encode("latin1").hex()
+        base = [("AAs", aas), ("Starts", starts), ("Base1", b1), ("Base2", b2), ("Base3", b3)]
+        ops = ["read hex=%s" % ncbi(base), "read hex=%s nt=rna" % ncbi(base)]
+        for li in range(5):
+            chars = {0: "BXJZOU-~?b5", 1: "*xX +", 2: "NnRr-*~X5", 3: "NnYy-*~X5", 4: "NnKk-*~X5"}[li]
+            for pos in (0, 1, 31, 42, 62, 63):
+                for ch in chars:
+                    rows = [list(r) for r in base]; v = rows[li][1]; rows[li][1] = v[:pos] + ch + v[pos + 1:]
+                    ops.append("read hex=%s" % ncbi(rows))
+        # exactly one codon missing (another one twice): every column in turn, one base changed to a neighbour
+        for col in range(64):
+            for li, bl in ((2, b1), (3, b2), (4, b3)):
+                if (col + li) % 3: continue
+                rows = [list(r) for r in base]
+                rows[li][1] = bl[:col] + "TCAG"[("TCAG".index(bl[col]) + 1) % 4] + bl[col + 1:]
+                ops.append("read hex=%s" % ncbi(rows))
+        # an amino acid never encoded / no stop, lengths 63 and 65, misaligned line, missing line
+        for a_from, a_to in (("W", "C"), ("M", "I"), ("*", "W"), ("*", "Q")):
+            rows = [list(r) for r in base]; rows[0][1] = aas.replace(a_from, a_to); ops.append("read hex=%s" % ncbi(rows))
+        for li in range(5):
+            for newv in (base[li][1][:63], base[li][1] + base[li][1][-1]):
+                rows = [list(r) for r in base]; rows[li][1] = newv; ops.append("read hex=%s" % ncbi(rows))
+            rows = [list(r) for r in base]; del rows[li]; ops.append("read hex=%s" % ncbi(rows))
+            if li: ops.append("read hex=%s" % ("\n".join(("  %-6s = %s" if k != li else "  %-6s =  %s") % base[k] for k in range(5)) + "\n").encode().hex())
+        out.append({"name": "read-damage", "ops": ops, "sticky": 0})
         def orf(dna, **kw):
             d = dict(id=1, init="any", using=0, minlen=0, strand="b", cuts="-"); d.update(kw)
             return "orfs id=%(id)d init=%(init)s using=%(using)d minlen=%(minlen)d strand=%(strand)s dna=%(dna)s cuts=%(cuts)s" % dict(d, dna=dna.encode().hex() or "-")
@@ -437,7 +467,11 @@ class C17(Prop):
             n = len(op)
             b = "<64" if n < 64 else "<1k" if n < 1024 else "<8k" if n < 8192 else ">=8k"
             st["arg_bytes"][b] = st["arg_bytes"].get(b, 0) + 1
-        return self._monitor(ctx, case, out)
+        try:
+            return self._monitor(ctx, case, out)
+        except Exception as e:      # an answer the monitor cannot even parse is itself a wrong answer
+            bad = next((l for l in out if not l.startswith(("ok", "st=", "dig=", "e", "bad-op", "null", "fault", "atexit"))), out[-1] if out else "")
+            return Failure("monitor", "unexpected answer from the implementation (%s: %s): %s" % (type(e).__name__, e, bad[:80]))
 
     def extra_evidence(self, ctx):
         return {"input_distribution": getattr(self, "_dist", {}), "tables_dumped": [t["id"] for t in getattr(self, "_tabs", [])]}
